@@ -49,7 +49,10 @@ class ColumnMetadata:
         """
         if self._source is None or isinstance(self._source, str):
             return self._source
-        return self._source[self.column_name].get("HED", {})
+        entry = self._source[self.column_name]
+        if not isinstance(entry, dict):
+            return {}
+        return entry.get("HED", {})
 
     @property
     def source_dict(self):
